@@ -13,7 +13,7 @@ import (
 	"strings"
 	"time"
 
-	"golang.org/x/tools/go/ssa"
+	"trzszlint/xssa"
 )
 
 type Obligation struct {
